@@ -20,6 +20,10 @@ CLAIMS = {
    text='Partial: a rejected cat leaves observable contents unchanged (commit-after-validate, slot index < 48 from the 120 ms check); every output store of out_range_impl is reached only after a tot_size-vs-maxlen check returning OPUS_BUFFER_TOO_SMALL since the last growth of tot_size (typestate product over the CFG with interval pruning); pad/unpad guards and copy-before-cat; no repacketizer/parser/extension error is dropped. Byte-for-byte frame preservation, canonical unpad and the 1277*n bound are NOT decided.',
    note=TRUST + 'One growth of tot_size is a frozen, reasoned exception (anticipated by the dominating padding check).',
    technique='typestate product of the CFG with a budget-checked automaton, analysed by interval abstract interpretation; never-after / must-pass-through rules; unchecked-error rule'),
+ 'C08': dict(category='other',
+   text='Partial: only the range coder\'s five writers (plus four frozen save/restore sites that restore bytes they saved) can store into the memory ec_ctx.buf points to (who-may-write via points-to), the decoder reads packet bytes only in ec_read_byte/_from_end; each access is guarded by the offs/end_offs/storage test; encoder and decoder update nbits_total/rng identically in the normalise loops and raw-bit coders, split uints at the same EC_UINT_BITS, renormalise after every rng update and start from the same (rng, nbits_total). decode(encode(x)) = x and tell_frac monotonicity are NOT decided.',
+   note=TRUST,
+   technique='who-may-write by field-tracked points-to + dominance guards + sibling agreement (encoder/decoder) of field-update projections'),
  'C10': dict(category='other',
    text='Partial: for all five built-in ambisonics orders demixing x mixing = gain*I (exhaustive over the constant matrices) with consistent headers/sizes and matching order selection; the 8 Vorbis layouts are valid permutation layouts equal to RFC 7845; one self-delimiting predicate at all five multistream sites; (selector, lane, stride) routing pairs in encoder and decoder and the selector bodies; creation guards dominate allocation/layout stores. Bit-exact equality with stand-alone decoding is NOT decided.',
    note=TRUST + 'RFC 7845 family-1 table transcribed into the checker.',
